@@ -1,5 +1,131 @@
-import PPLV.Solver.PIP
+import PPLV.Solver.PIPProofs
+
+/-!
+# C07 — PIP solver: the tree yields the lexicographic minimum for every parameter value
+
+What is proved here (for all trees, problems and parameter values — nothing is bounded):
+
+* the meaning of a solution tree is a *function* of the parameter values: the relational
+  "spanning" of the class documentation (`Spans`) has exactly one outcome, the one `Tree.eval`
+  computes (`eval_deterministic`, `eval_spans`);
+* a well-scoped tree never evaluates to `scopeError` (`eval_no_scope_error`);
+* the reference `lexminRef` is **sound whenever it answers**: `point p` — `p` is feasible,
+  non-negative, integral and lexicographically ≤ every feasible non-negative integer point;
+  `bottom` — there is no such point (`lexmin_spec_partial`);  the decision `feasibleB` used for
+  cross-checks is exact (`feasible_decided`);
+* stage 2, the Gomory cut of `PIP_Solution_Node::generate_cut`: every integer solution of the
+  tableau row satisfies the cut (`gomory_cut_valid`) and the two context rows say exactly that the
+  new artificial parameter is the floor (`gomory_context_rows_floor`).
+
+The run-time part (`Driver/PIP.lean`, `checks/c07.py`) evaluates the trees of the real
+`PIP_Problem` with `Tree.eval` and compares with `lexminRef` at every valuation of a box.
+The simplex / sign analysis / cut *selection* of `PIP_Tree.cc` is not modelled.
+-/
 namespace C07
 open PPLV.PIP
-theorem placeholder : (1 : Nat) = 1 := rfl
+
+/-! ### the tree semantics -/
+
+/-- Spanning a tree under given parameter values has at most one outcome. -/
+theorem eval_deterministic (t : Tree) (θ : List Int) (r₁ r₂ : Result)
+    (h₁ : Spans t θ r₁) (h₂ : Spans t θ r₂) : r₁ = r₂ := by
+  rw [← spans_unique h₁, ← spans_unique h₂]
+
+/-- … and exactly one: the outcome is `Tree.eval t θ`. -/
+theorem eval_spans (t : Tree) (θ : List Int) (r : Result) : Spans t θ r ↔ t.eval θ = r :=
+  ⟨spans_unique, fun h => h ▸ spans_eval t θ⟩
+
+/-- the solution tree of the class documentation:
+    `if n ≥ 2 then (if m ≥ 2 then {2 ; 2} else (E = m div 2 ; if 2n + 3m ≥ 8 then {-m - E + 4 ; m} else ⊥)) else ⊥` -/
+def docTree : Tree :=
+  .dec [] [⟨⟨[1, 0], -2⟩, .ge⟩]
+    (.dec [] [⟨⟨[0, 1], -2⟩, .ge⟩]
+      (.sol [] [] [⟨⟨[], 2⟩, 1⟩, ⟨⟨[], 2⟩, 1⟩])
+      (.sol [⟨⟨[0, 1], 0⟩, 2⟩] [⟨⟨[2, 3], -8⟩, .ge⟩] [⟨⟨[0, -1, -1], 4⟩, 1⟩, ⟨⟨[0, 1], 0⟩, 1⟩]))
+    .bottom
+
+example : docTree.eval [5, 7] = .point [2, 2] ∧ docTree.eval [3, 1] = .point [3, 1]
+    ∧ docTree.eval [1, 9] = .bottom ∧ docTree.eval [2, 0] = .bottom := by decide
+
+/-- A well-scoped tree — every expression mentions only problem parameters and artificial
+    parameters declared above it — never yields `scopeError`. -/
+theorem eval_no_scope_error (t : Tree) (θ : List Int) (h : t.wellScoped θ.length = true) :
+    t.eval θ ≠ .scopeError := PPLV.PIP.eval_no_scope_error t θ h
+
+example : docTree.wellScoped 2 = true := by decide
+/-- the hypothesis is needed: the shape returned by the unchanged library for
+    `{A - 3C + 3 = 0, -2A + 3D + 4 > 0, A - 2B + 1 = 0}` (KF-C07-2) uses undeclared parameters -/
+example : (Tree.sol [] [⟨⟨[1, 0], -2⟩, .ge⟩] [⟨⟨[1, 0, 0, -1], 1⟩, 1⟩, ⟨⟨[1, 0, -1], -1⟩, 1⟩]).eval [3, 2]
+    = .scopeError := by decide
+
+/-! ### the reference -/
+
+/-- **Soundness of the reference** (all problems, all parameter values, all windows `W`;
+    unbounded regions included).  `_partial`: the reference may answer `unknown` (a coordinate
+    unbounded in the relaxation and no point inside the window); completeness — "never `unknown`
+    when the relaxation is bounded" — is not proved, the driver counts such valuations. -/
+theorem lexmin_spec_partial (W : Nat) (P : Problem) (θ : List Int) :
+    (∀ p, lexminRef W P θ = .point p →
+        P.feasible θ p ∧ ∀ y, P.feasible θ y → lexLe p y) ∧
+    (lexminRef W P θ = .bottom → ∀ y, ¬ P.feasible θ y) := by
+  have h := lexminRef_ok W P θ
+  constructor
+  · intro p hp
+    rw [hp] at h
+    exact ⟨(feasible_iff_feasR P θ p).mpr h.1, fun y hy => h.2 y ((feasible_iff_feasR P θ y).mp hy)⟩
+  · intro hb y hy
+    rw [hb] at h
+    exact h y ((feasible_iff_feasR P θ y).mp hy)
+
+/-- feasibility of a given point is decided exactly -/
+theorem feasible_decided (P : Problem) (θ x : List Int) : P.feasibleB θ x = true ↔ P.feasible θ x :=
+  feasibleB_iff P θ x
+
+/-- the example of the class documentation: `3j ≥ -2i + 8, j ≤ 4i - 4, i ≤ n, j ≤ m` -/
+def docProblem : Problem :=
+  { nv := 2, np := 2,
+    rows := [⟨[2, 3], [], -8, .ge⟩, ⟨[4, -1], [], -4, .ge⟩, ⟨[0, -1], [0, 1], 0, .ge⟩, ⟨[-1, 0], [1, 0], 0, .ge⟩] }
+
+example : lexminRef 50 docProblem [5, 7] = .point [2, 2] ∧ lexminRef 50 docProblem [3, 1] = .point [3, 1]
+    ∧ lexminRef 50 docProblem [1, 9] = .bottom := by decide +kernel
+/-- an unbounded region with a minimum, and one where the window is exhausted -/
+example : lexminRef 10 ⟨2, 1, [⟨[1, 1], [-1], 0, .ge⟩]⟩ [7] = .point [0, 7]
+    ∧ lexminRef 10 ⟨2, 0, [⟨[2, -2], [], -1, .eq⟩]⟩ [] = .unknown := by decide +kernel
+
+/-- `{A + B ≤ 0}`, parameter `B` (defect 14 of DESIGN §9, KF-C07-1) -/
+def p14 : Problem := { nv := 1, np := 1, rows := [⟨[-1], [-1], 0, .ge⟩] }
+
+/-- The clause "the status is *unfeasible* exactly when the result is bottom for all assignments"
+    fails on the unchanged library: it answers `UNFEASIBLE_PIP_PROBLEM` for `p14`, but `B = 0`
+    is inside the (empty) context and admits `A = 0`. -/
+theorem status_unfeasible_clause_fails :
+    ¬ (∀ θ, p14.inContext θ = true → ∀ x, ¬ p14.feasible θ x) := by
+  intro h
+  exact h [0] (by decide) [0] ((feasibleB_iff p14 [0] [0]).mp (by decide))
+
+example : lexminRef 8 p14 [0] = .point [0] ∧ lexminRef 8 p14 [1] = .bottom := by decide +kernel
+
+/-! ### stage 2: the Gomory cut of `generate_cut` -/
+
+/-- Every integer solution of the tableau row `d·x = s·y + t·p + t₀` (`y ≥ 0`) satisfies the cut
+    `Σ (sⱼ mod d) yⱼ - Σ ((-tₖ) mod d) pₖ - ((-t₀) mod d) + d·q ≥ 0`, where `q` is the new
+    artificial parameter `⌊(Σ ((-tₖ) mod d) pₖ + ((-t₀) mod d)) / d⌋` (`mod` = `pos_rem_assign`). -/
+theorem gomory_cut_valid (r : CutRow) (hd : 0 < r.d) (y p : List Int) (x : Int)
+    (hy : ∀ v ∈ y, 0 ≤ v) (hrow : r.d * x = dotI r.s y + dotI r.t p + r.t0) :
+    r.cut.holds y p (Int.fdiv (dotI r.artNum.cs p + r.artNum.k) r.d) :=
+  cut_valid r hd y p x hy hrow
+
+/-- The two rows `e - d·q ≥ 0`, `d·q + d - 1 - e ≥ 0` added to the context define exactly
+    `q = ⌊e / d⌋`. -/
+theorem gomory_context_rows_floor (e d q : Int) (hd : 0 < d) :
+    (0 ≤ e - d * q ∧ 0 ≤ d * q + d - 1 - e) ↔ q = Int.fdiv e d :=
+  context_rows_iff_floor e d q hd
+
+/-- the row `2·x = y₁ + 3·p₁ + 1`: cut `y₁ - p₁ - 1 + 2q ≥ 0` with `q = (p₁ + 1) div 2` -/
+example : (CutRow.mk 2 [1] [3] 1).cut.s = [1] ∧ (CutRow.mk 2 [1] [3] 1).cut.t = [-1]
+    ∧ (CutRow.mk 2 [1] [3] 1).cut.k = -1 ∧ (CutRow.mk 2 [1] [3] 1).artNum = ⟨[1], 1⟩ := by decide
+/-- the cut is not vacuous: it excludes the fractional vertex `y₁ = 0` at `p₁ = 2` (`x = 7/2`) -/
+example : ¬ (CutRow.mk 2 [1] [3] 1).cut.holds [0] [2] (Int.fdiv (2 + 1) 2) := by
+  unfold Cut.holds; decide
+
 end C07
